@@ -43,6 +43,7 @@ type LoopContract struct {
 type Contract struct {
 	Func      string
 	Uses      []string
+	Hide      []string // modules whose definitional axioms are not needed: only declarations and proved lemmas are visible
 	Requires  []Clause
 	Ensures   []Clause
 	Assigns   []string
@@ -68,7 +69,7 @@ type ContractSet struct {
 
 var clauseKeywords = map[string]bool{"func": true, "use": true, "requires": true, "ensures": true,
 	"assigns": true, "decreases": true, "loop": true, "invariant": true, "trusted": true,
-	"inline": true, "noinline": true, "unroll": true, "props": true, "function": true, "ghosttrace": true}
+	"inline": true, "noinline": true, "unroll": true, "props": true, "function": true, "ghosttrace": true, "hide": true}
 
 func splitLabel(s string) (string, string) {
 	s = strings.TrimSpace(s)
@@ -141,6 +142,8 @@ func (cs *ContractSet) loadFile(path string) error {
 			last = nil
 		case "use":
 			cur.Uses = append(cur.Uses, strings.Fields(rest)...)
+		case "hide":
+			cur.Hide = append(cur.Hide, strings.Fields(rest)...)
 		case "props":
 			cur.Props = append(cur.Props, strings.Fields(rest)...)
 		case "ghosttrace":
